@@ -1,7 +1,7 @@
 ---- MODULE BclISA ----
 \* The instruction set of format version 1.1 as one table: numbering, operand kinds, stack effects (C10, C14, C19).
 \* Shared by the VM machine, the all-paths exploration, the disassembly model and the format checks.
-EXTENDS BclFormat
+EXTENDS BclFormat, TLC
 OpName == << "NOP", "RET", "PRINT", "SETLOCAL", "GETLOCAL", "DEFBLOCK", "ENDBLOCK", "SETFIELD", "GETFIELD", "CONST",
              "NIL", "ZERO", "ONE", "TRUE", "FALSE", "NOT", "EQ", "LT", "GT", "ADD", "SUB", "MUL", "DIV", "NEG", "UNPLUS",
              "JUMP", "LOOP", "JFALSE", "POP", "POPN", "BIND" >>
@@ -37,4 +37,44 @@ Boundaries(code, off, acc) == IF off >= Len(code) \/ ~Fits(code, off) THEN acc E
 \* offset just past the last decodable instruction (= Len(code) iff the instructions tile the code exactly)
 RECURSIVE TileEnd(_, _)
 TileEnd(code, off) == IF off >= Len(code) \/ ~Fits(code, off) THEN off ELSE TileEnd(code, off + Instr(code, off).len)
+\* ---- well-formedness of one instruction reached with operand depth d and block depth b (C10)
+IsStr(p, i) == i >= 0 /\ i < Len(p.consts) /\ p.consts[i + 1].t = "str"
+InstrOk(p, pc, d, b) ==
+  LET code == p.code ins == Instr(code, pc) IN
+  /\ ins.op # "BAD"
+  /\ d >= NeedsDepth(ins) /\ b >= 0
+  /\ ins.op \in {"GETLOCAL", "SETLOCAL"} => ins.a >= 0 /\ ins.a < d
+  /\ ins.op = "CONST" => ins.a >= 0 /\ ins.a < Len(p.consts)
+  /\ ins.op \in {"GETFIELD", "SETFIELD", "BIND"} => IsStr(p, ins.a)
+  /\ ins.op = "DEFBLOCK" => IsStr(p, ins.a) /\ IsStr(p, ins.b)
+  /\ ins.op = "BIND" => (ins.b % 16) \in {1, 2, 3, 15} /\ (ins.b - (ins.b % 16)) \in {16, 32} /\ ~((ins.b % 16) = 15 /\ ins.b - 15 = 16)
+  /\ ins.op = "RET" => d = 0 /\ b = 0 /\ pc + 1 = Len(code)
+  /\ ins.op \in {"GETFIELD", "SETFIELD", "ENDBLOCK"} => b >= 1
+\* forward data flow: the (depth, bdepth) with which each offset is first reached; the invariant Unique then demands that every
+\* path reaches it with exactly these
+Succ(code, w) ==
+  LET ins == Instr(code, w.pc)
+      d2 == w.d + Effect(ins)
+      b2 == w.b + (IF ins.op = "DEFBLOCK" THEN 1 ELSE IF ins.op = "ENDBLOCK" THEN -1 ELSE 0)
+      nx == w.pc + ins.len IN
+  CASE ins.op = "RET" -> <<>>
+    [] ins.op = "JUMP" -> << [pc |-> nx + ins.a, d |-> d2, b |-> b2] >>
+    [] ins.op = "LOOP" -> << [pc |-> nx - ins.a, d |-> d2, b |-> b2] >>
+    [] ins.op = "JFALSE" -> << [pc |-> nx, d |-> d2, b |-> b2], [pc |-> nx + ins.a, d |-> d2, b |-> b2] >>
+    [] OTHER -> << [pc |-> nx, d |-> d2, b |-> b2] >>
+RECURSIVE Flow(_, _, _, _)
+Flow(code, B, work, map) ==
+  IF work = <<>> THEN map
+  ELSE LET w == Head(work) IN
+       IF w.pc \in DOMAIN map \/ w.pc \notin B THEN Flow(code, B, Tail(work), map)
+       ELSE Flow(code, B, Tail(work) \o Succ(code, w), map @@ (w.pc :> [d |-> w.d, b |-> w.b]))
+\* a whole program is well-formed along every path (the pure-function form of the exploration in Trace_Dumps)
+PathsOk(p) ==
+  /\ p.code # <<>> /\ TileEnd(p.code, 0) = Len(p.code)
+  /\ LET B == Boundaries(p.code, 0, {})
+         m == Flow(p.code, B, << [pc |-> 0, d |-> 0, b |-> 0] >>, <<>>) IN
+     \A pc \in DOMAIN m :
+        /\ InstrOk(p, pc, m[pc].d, m[pc].b)
+        /\ LET ss == Succ(p.code, [pc |-> pc, d |-> m[pc].d, b |-> m[pc].b]) IN
+           \A i \in 1..Len(ss) : ss[i].pc \in DOMAIN m /\ m[ss[i].pc].d = ss[i].d /\ m[ss[i].pc].b = ss[i].b
 ====
